@@ -2,6 +2,7 @@
 #include <deque>
 #include <functional>
 #include <memory>
+#include <thread>
 #include <vector>
 
 #include "../rt/sim_api.h"
@@ -261,7 +262,19 @@ extern "C" void c01_run()
     parallel_for(1, [](int) {});
   }
   sim_phase(1);
-  for (int k = 0; k < p->ncalls; k++) {
+  if (p->concurrent) {
+    // an application with several threads: each makes its own call, at the same time as the others
+    std::vector<std::thread> callers;
+    for (int k = 1; k < p->ncalls; k++)
+      callers.emplace_back([p, k]() {
+        const C01Call &c = p->calls[k];
+        run_call(c, false, c.api, c.itype, c.count, c.block);
+      });
+    run_call(p->calls[0], false, p->calls[0].api, p->calls[0].itype, p->calls[0].count, p->calls[0].block);
+    for (auto &th : callers)
+      th.join();
+  }
+  for (int k = 0; k < p->ncalls && !p->concurrent; k++) {
     const C01Call &c = p->calls[k];
     if (c.from_task) {
       // the call is made from inside another parallel loop
